@@ -44,7 +44,8 @@ def pkg_dir_of(demo_text):
     # an explicit hint in the header comment wins
     hint = re.search(r"((?:node|explorer-backend)/(?:pkg|cmd)?/?[\w/-]+)", demo_text[:1500])
     d = table.get(name.replace("_test", ""))
-    if hint and os.path.isdir(os.path.join(EVAL, hint.group(1).rstrip("/"))):
+    # ... but only a hint that names a directory of this very package (an import path of another package in the header is not one)
+    if hint and os.path.isdir(os.path.join(EVAL, hint.group(1).rstrip("/"))) and (d is None or os.path.basename(hint.group(1).rstrip("/")) == os.path.basename(d)):
         d = hint.group(1).rstrip("/")
     return d, name
 
